@@ -144,9 +144,18 @@ func c15Exec(x *Ctx) {
 			os.Symlink("nope", p) // dangling (targets are short: in 9P2000.u they are part of the entry)
 		case 6:
 			os.Symlink([]string{"lp1", "..", "lp2", "."}[i/10%4], p) // into a loop, to the parent, to the directory itself
+		case 5:
+			// a further name for an earlier file: hard links are entries like any other
+			if err := os.Link(filepath.Join(dir, names[i-1]), p); err != nil {
+				os.WriteFile(p, fileContent(n, i%7*13), 0o640)
+			}
 		default:
 			os.WriteFile(p, fileContent(n, i%7*13), 0o640)
 		}
+	}
+	if ms >= 8192 && len(names) >= 2 && c.Seed%7 == 3 {
+		// one entry of more than 4 KiB: in 9P2000.u a symbolic link's target is part of its entry
+		os.Symlink(strings.Repeat("t/", 2030)+"x", filepath.Join(dir, "long-target"))
 	}
 	if len(names) >= 3 {
 		os.Symlink("lp2", filepath.Join(dir, "lp1")) // two links that point at each other
